@@ -504,6 +504,9 @@ class Engine:
             return f(self, ty, name)
         if ty.startswith('('):
             return StructV(ty, {}, lazy=name)
+        inner = EXTERNAL_NEWTYPES.get(h)
+        if inner is not None:
+            return StructV(ty, {0: self.materialize(inner, name + '.0')})
         return LazyV(name, ty)
 
     # ---------------------------------------------------------------- places
@@ -1110,6 +1113,9 @@ class Engine:
             inh = [f for f in out if f.impl_loc and (srcindex.impl_info(*f.impl_loc) or {}).get('trait') is None]
             if inh and len(out) > 1:
                 out = inh
+        seen_ids = set()
+        # the dump can contain a const-eval and a runtime copy of a const fn under the same name: identical bodies
+        out = [f for f in out if not ((f.name, f.crate, len(f.args)) in seen_ids or seen_ids.add((f.name, f.crate, len(f.args))))]
         self.resolve_cache[key] = out
         return out
 
@@ -1412,6 +1418,8 @@ def is_generic_param(t):
 
 
 VALUE_TYPES = {}
+# single-field tuple structs of external crates whose payload type is needed to compare / key lazily created values
+EXTERNAL_NEWTYPES = {'PaddedPieceSize': 'u64', 'UnpaddedPieceSize': 'u64', 'BigIntDe': 'BigInt', 'BigUintDe': 'BigUint'}
 
 
 class _Downcast:
